@@ -1,5 +1,6 @@
 """C07 — every stored elite is retrievable through its own measures (fixed-cell archives here;
 SlidingBoundariesArchive remaps and ProximityArchive are exercised by the C15 / C14 runners with the same oracle)."""
+import archdispatch
 import archlib
 
 ID = "C07"
@@ -63,14 +64,17 @@ def nontrivial(case):
 
 
 def run_case(case):
-    return archlib.run_case(case, PROPS)
+    return archdispatch.run_case(case, PROPS)
 
 
 def run(ctx):
-    budget = 10 if ctx.quick else 100
+    budget = 7 if ctx.quick else 80
     ctx.explore("mixed", gen("mixed"), run_case, ctx.n(200, 14000), nontrivial=nontrivial, time_budget=budget)
     ctx.explore("cma", gen("cma", cma=True), run_case, ctx.n(120, 8000), nontrivial=nontrivial, time_budget=budget)
     ctx.explore("edge", gen_edge, run_case, ctx.n(120, 8000), nontrivial=nontrivial, time_budget=budget)
+    # across SlidingBoundariesArchive remaps and ProximityArchive replacements / growth
+    ctx.explore("sliding-remaps", archdispatch.gen_sliding, run_case, ctx.n(80, 6000), time_budget=budget)
+    ctx.explore("proximity", archdispatch.gen_prox(), run_case, ctx.n(80, 6000), time_budget=budget)
 
 
 def replay(ctx, case):
